@@ -234,6 +234,51 @@ def c01c(ctx):
             ctx.fail(o, lp.head, "set_computed_input does not iterate Snapshot::forward_edge_order() when unwiring")
 
 
+SELF_ID = re.compile(r"Snapshot(::<C, Q>|<C, Q>>)::query_id$|query::QueryID::new$")
+
+
+def _is_self_id(b, op_):
+    """Is the operand this node's own id: `self.query_id()` or `QueryID::new::<Q>(hash)` and nothing else?"""
+    os_ = list(df.origins_of_operand(b, op_))
+    return bool(os_) and all(x.kind == "call" and SELF_ID.search(x.callee() or "") for x in os_)
+
+
+def _touches_self_id(b, op_):
+    return any(x.kind == "call" and SELF_ID.search(x.callee() or "") for x in df.origins_of_operand(b, op_))
+
+
+def c01c_roles(ctx):
+    """Backward edges are stored per callee (`key = callee, member = caller`), dirty edges as `Edge { from: caller,
+    to: callee }`.  A node maintains its own edges, so in every maintenance site of a Snapshot method the caller role is
+    the node's own id (`self.query_id()` / `QueryID::new::<Q>(..)`) and the callee role never is.  Two QueryID
+    arguments of one type: nothing else keeps them apart."""
+    prog = ctx.prog
+    o = ctx.ob("C01.c", "edge-roles/backward-edge-key-is-the-callee", "K5",
+               "backward_edges.{insert,remove}(key, member): key is the dependency, member is this node's own id; Edge { from, to }: from is this node's own id, to is not")
+    n = 0
+    for fn in ("Snapshot::set_computed", "Snapshot::set_computed_input", "Snapshot::clean_query"):
+        b = ctx.touch(prog.coroutine_of(fn))
+        for s_ in b.calls_to(r"key_of_set_map::KeyOfSetMap::(insert|remove)$"):
+            if "backward_edges" not in df.access_path(b, s_.node["args"][0]):
+                continue
+            n += 1
+            key, member = s_.node["args"][1], s_.node["args"][2]
+            if not _is_self_id(b, member) or _touches_self_id(b, key):
+                ctx.fail(o, s_, "%s %ss a backward edge with the roles swapped: the set of the *dependency* must %s *this* node "
+                         "(key = callee, member = self.query_id()); a stale or missing backward edge makes dirty propagation and backward projection "
+                         "visit the wrong nodes" % (fn, s_.node["fn"]["path"].rsplit("::", 1)[-1], "contain" if s_.node["fn"]["path"].endswith("insert") else "lose"))
+        for a in b.assigns(lambda st: st["rv"]["k"] == "agg" and st["rv"].get("ak") == "adt" and (st["rv"].get("adt") or "").endswith("database::Edge")):
+            n += 1
+            ops = a.node["rv"]["ops"]
+            fields = a.node["rv"].get("fields") or ["from", "to"]
+            by = dict(zip(fields, ops))
+            if not _is_self_id(b, by["from"]) or _touches_self_id(b, by["to"]):
+                ctx.fail(o, a, "%s builds an Edge whose `from` is not this node (or whose `to` is): dirty marks are keyed `from = caller, to = callee`" % fn)
+    o.sites = n
+    if n < 8:
+        ctx.fail(o, "(program)", "expected >= 8 backward-edge / Edge maintenance sites in set_computed, set_computed_input and clean_query, found %d" % n)
+
+
 def c01d(ctx):
     prog = ctx.prog
     o = ctx.ob("C01.d", "repair_query/clear-before-execute", "K1", "dependencies recorded while repairing are cleared before the executor re-runs")
@@ -423,7 +468,41 @@ def c01h(ctx):
                 ctx.fail(o, cc, "execute_query publishes a value together with the fingerprint of another value")
 
 
+def c01i(ctx):
+    """The repair decision aggregates what was learnt about *all* forward edges: `repair_transitive_firewall_callees`
+    is a sticky flag (some callee's firewall set changed) and `cleaned_edges` a growing list.  A flag that takes the
+    value of the *last* callee, or a list that is replaced, forgets earlier callees: the node is then verified without
+    repairing the firewalls it newly reaches and later misses their changes."""
+    prog = ctx.prog
+    o = ctx.ob("C01.i", "repair-decision/accumulators-are-monotone", "K5",
+               "in every *Decision value the firewall-repair flag is built from the constants false/true only and the clean list from one Vec::new() that is only appended to")
+    n = 0
+    for b in prog.all_bodies(["qbice"]):
+        if not b.file.endswith("computation_graph/repair.rs"):
+            continue
+        for a in b.assigns(lambda st: st["rv"]["k"] == "agg" and st["rv"].get("ak") == "adt" and (st["rv"].get("adt") or "").endswith("Decision")):
+            rv = a.node["rv"]
+            for f, op_ in zip(rv.get("fields") or [], rv["ops"]):
+                if f == "repair_transitive_firewall_callees":
+                    n += 1
+                    ctx.touch(b)
+                    bad = [x for x in df.origins_of_operand(b, op_) if x.kind != "const"]
+                    if bad:
+                        ctx.fail(o, a, "%s: `repair_transitive_firewall_callees` takes a per-callee value (%s) instead of being raised to true and left there: "
+                                 "a later callee resets what an earlier one demanded" % (b.name, ", ".join(sorted({short(x.callee() or "") if x.kind == "call" else x.kind for x in bad}))))
+                elif f == "cleaned_edges":
+                    n += 1
+                    os_ = list(df.origins_of_operand(b, op_))
+                    if len(os_) != 1 or os_[0].kind != "call" or not (os_[0].callee() or "").endswith("Vec::<T>::new"):
+                        ctx.fail(o, a, "%s: `cleaned_edges` is not one list that is only appended to (origins: %s)" % (
+                            b.name, sorted({short(x.callee() or "") if x.kind == "call" else x.kind for x in os_})))
+    o.sites = n
+    if n < 5:
+        ctx.fail(o, "(program)", "expected >= 5 accumulator fields in the *Decision values of repair.rs, found %d" % n)
+
+
 def run(ctx):
     ctx.run_clause("C01.h", c01h)
-    for c, f in (("C01.a", c01a), ("C01.b", c01b), ("C01.c", c01c), ("C01.d", c01d), ("C01.e", c01e), ("C01.f", c01f), ("C01.g", c01g)):
+    ctx.run_clause("C01.i", c01i)
+    for c, f in (("C01.a", c01a), ("C01.b", c01b), ("C01.c", c01c), ("C01.c", c01c_roles), ("C01.d", c01d), ("C01.e", c01e), ("C01.f", c01f), ("C01.g", c01g)):
         ctx.run_clause(c, f)
